@@ -225,6 +225,9 @@ def load_known():
     return json.load(open(p)).get("findings", [])
 
 
+CURRENT = None     # the Check object of this run (check.py looks at it when a tool error ends the run)
+
+
 class Check:
     def __init__(self, prop, tier, level="model_checking"):
         self.prop = prop
@@ -239,6 +242,8 @@ class Check:
         self.assumptions = []
         self.notes = {}
         self._viol_keys = set()
+        global CURRENT
+        CURRENT = self
         self.replaying = bool(os.environ.get("VERIF_REPLAYING"))
         if not self.replaying:      # a replay run keeps the replay files (it is usually given one of them) ...
             shutil.rmtree(os.path.join(VERIF, "replays", prop), ignore_errors=True)
